@@ -189,7 +189,10 @@ func (am AppModule) EndBlock(ctx sdk.Context, _ abci.RequestEndBlock) []abci.Val
 	// TODO: for v1 use mode==1, just check the failed feeders
 	_, failed, sealed := agc.SealRound(ctx, forceSeal)
 	for _, feederID := range sealed {
-		am.keeper.RemoveNonceWithFeederIDForValidators(ctx, feederID, agc.GetValidators())
+		// remove the nonces of this feeder for everybody, not only for the validators that are
+		// in the (possibly just updated) set: otherwise a validator that has left the set keeps
+		// its entry and its fee-less create-price txs are still admitted by the ante handler.
+		am.keeper.RemoveNonceWithFeederIDForAll(ctx, feederID)
 	}
 	// append new round with previous price for fail-seal token
 	for _, tokenID := range failed {
